@@ -441,7 +441,14 @@ func (e *Engine) Run(t *core.Tape, cfg *core.Config, st *core.Stats) *core.Viola
 	var srcName string
 	var pinned *corpusEntry
 	valid := false // known to be a valid program
-	switch k := t.Weighted([]int{4, 4, 3, 1, 1, 3, 2}); k {
+	switch k := t.Weighted([]int{4, 4, 3, 1, 1, 3, 2, 1}); k {
+	case 7: // a run of one byte (continuation bytes, lead bytes, NUL, quotes, backslashes, brackets, ...) inside or instead of a token
+		pre := []string{"x = \"", "local '", "x = [[", "--[[", "--", "x = 0x", "x = ", "", "return ", "x = \"a\\", "goto ", "::"}[t.Choose(12)]
+		bs := []byte{0x80, 0xbf, 0xc0, 0xe0, 0xf0, 0xff, 0x00, '\\', '"', '\'', '[', ']', '=', '-', '0', '.', 'e', '(', '{', ':', ' ', '\r'}
+		run := strings.Repeat(string([]byte{bs[t.Choose(len(bs))]}), []int{1, 2, 31, 32, 33, 63, 64, 65, 66, 80, 127, 128, 129, 255, 256, 257, 300}[t.Choose(17)])
+		suf := []string{"\n", "", "\"", "'", "]]", " x", "\n\"", ")"}[t.Choose(8)]
+		src, srcName = pre+run+suf, "byte-run"
+		st.Probe("byte_run_source")
 	case 6: // valid programs with one very long token or very many tokens (lengths and counts around buffer sizes and powers of two)
 		n := []int{250, 255, 256, 257, 511, 512, 1023, 1024, 4094, 4095, 4096, 4097, 8191, 8192, 8193, 20000, 65535, 65536, 70000}[t.Choose(19)]
 		var sb strings.Builder
